@@ -412,7 +412,11 @@ def failed_head_lookup_skips_precommit(trace, viol):
     """an internal 'git rev-parse <branch/HEAD>' that fails with status 1 is read as "unborn branch":
     the pre-commit checkpoint then runs against the wrong working log and the commit goes ahead"""
     f = trace.get("fault") or (viol.get("detail") or {}).get("fault") or {}
-    return f.get("family") == "git" and "rev-parse" in (f.get("argv") or []) and \
+    argv = f.get("argv") or []
+    target = (trace.get("target") or {}).get("argv") or []
+    # exactly this: the lookup of HEAD / the current branch exits with status 1 while a commit is being wrapped
+    return f.get("family") == "git" and f.get("kind") == "fail:1" and "rev-parse" in argv and \
+        any(a == "HEAD" or a.startswith("refs/heads/") for a in argv) and target[:1] == ["commit"] and \
         (viol.get("class") or "").startswith("attribution_invented_after_fault")
 
 
